@@ -46,16 +46,19 @@ type txnIn struct {
 	id     int
 }
 
-// state: canonical string "k\x1fv\x1e..." of the present keys, sorted by key index.
+// state: canonical string "<key index>:<length>:<value>..." of the present keys, sorted by key
+// index (length-prefixed: values may contain any byte).
 func decode(s string) map[int]string {
 	m := map[int]string{}
-	for _, kv := range strings.Split(s, "\x1e") {
-		if kv == "" {
-			continue
-		}
-		i := strings.IndexByte(kv, '\x1f')
-		k, _ := strconv.Atoi(kv[:i])
-		m[k] = kv[i+1:]
+	for len(s) > 0 {
+		i := strings.IndexByte(s, ':')
+		k, _ := strconv.Atoi(s[:i])
+		s = s[i+1:]
+		j := strings.IndexByte(s, ':')
+		n, _ := strconv.Atoi(s[:j])
+		s = s[j+1:]
+		m[k] = s[:n]
+		s = s[n:]
 	}
 	return m
 }
@@ -69,9 +72,10 @@ func encode(m map[int]string) string {
 	var b strings.Builder
 	for _, k := range ks {
 		b.WriteString(strconv.Itoa(k))
-		b.WriteByte('\x1f')
+		b.WriteByte(':')
+		b.WriteString(strconv.Itoa(len(m[k])))
+		b.WriteByte(':')
 		b.WriteString(m[k])
-		b.WriteByte('\x1e')
 	}
 	return b.String()
 }
